@@ -248,6 +248,7 @@ def simp(v):
 class Machine:
     def __init__(s, mods):
         s.mods = mods; s.lay = Layout(mods[0].dl); s.mem = {}; s.nreg = 0; s.steps = 0; s.funcs = {}
+        s.frames = []; s.valists = {}; s.json = {}
         s.merges = 0
         for m in mods:
             for n, f in m.funcs.items(): s.funcs[n] = f
@@ -335,7 +336,8 @@ class Machine:
     def gep(s, bt, base, idx):
         ty = bt; off = 0
         for k, (it, iv) in enumerate(idx):
-            if is_sym(iv): raise Unsupported("symbolic gep")
+            if is_sym(iv):
+                return Ptr(base.r, ('sym', iv))
             if isinstance(it, IntT) and iv >> (it.n - 1): iv -= 1 << it.n
             if k == 0: off += iv * s.lay.size(ty); continue
             if isinstance(ty, NamedT): ty = ty.res()
@@ -373,9 +375,45 @@ class Machine:
                 sg=lambda x: x-(1<<n) if x>>(n-1) else x
                 if mm[0]=='s': return (min if mm=='smin' else max)(a,b,key=sg)
                 return (min if mm=='umin' else max)(a,b)
+        if fname == '@llvm.va_start':
+            s.valists[args[0].r] = s.frames[-1]; return None
+        if fname == '@llvm.va_end': return None
+        if fname == '@vsprintf': return s.vsprintf(*args)
         if fname not in s.funcs: raise Unsupported("call " + fname)
         f = s.funcs[fname]; m = f.mod
         regs = {pn: a for (pt, pn), a in zip(f.params, args)}
+        s.frames.append(list(zip(vargs_t if (vargs_t:=getattr(s,'_vt',None)) else [], args[len(f.params):])) if f.va else None)
+        try:
+            return s.run(f, m, regs)
+        finally:
+            s.frames.pop()
+    def vsprintf(s, dst, fmt, ap):
+        va = list(s.valists[ap.r]); txt = bytearray(); k = fmt.o
+        while s.mem[fmt.r][k] != 0: txt.append(s.mem[fmt.r][k]); k += 1
+        txt = txt.decode(); seg = s.json.setdefault(dst.r, [])
+        import re as _re
+        pos = 0
+        for mm in _re.finditer(r'%(ll|l)?([dus])', txt):
+            if mm.start() > pos: seg.append(('lit', txt[pos:mm.start()]))
+            ty, a = va.pop(0)
+            if mm.group(2) == 's' and isinstance(a, tuple) and a[0] == 'ptrite':
+                def cstr(p):
+                    b = bytearray(); q = p.o
+                    while s.mem[p.r][q] != 0: b.append(s.mem[p.r][q]); q += 1
+                    return b.decode()
+                seg.append(('choice', a[1], cstr(a[2]), cstr(a[3])))
+            elif mm.group(2) == 's':
+                b = bytearray(); q = a.o
+                while s.mem[a.r][q] != 0: b.append(s.mem[a.r][q]); q += 1
+                seg.append(('lit', b.decode()))
+            else:
+                want = 64 if mm.group(1) else 32
+                seg.append(('num', mm.group(2), want, ty.n, a))
+            pos = mm.end()
+        if pos < len(txt): seg.append(('lit', txt[pos:]))
+        s.nlen = getattr(s, 'nlen', 0) + 1
+        return z3.BitVec(f'vsprintf_len{s.nlen}', 32)
+    def run(s, f, m, regs):
         cur = f.order[0]; prev = None; skip = 0
         while True:
             for ins in f.blocks[cur][skip:]:
@@ -451,7 +489,8 @@ class Machine:
         if o == 'select':
             ct, c = p.tv(); p.expect(','); ty, a = p.tv(); p.expect(','); ty2, b = p.tv()
             c = s.op(regs, m, ct, c); a = s.op(regs, m, ty, a); b = s.op(regs, m, ty2, b)
-            if is_sym(c): regs[dst] = simp(z3.If(c == 1, bv(a, ty.n), bv(b, ty.n)))
+            if is_sym(c) and isinstance(a, Ptr): regs[dst] = ('ptrite', c == 1, a, b)
+            elif is_sym(c): regs[dst] = simp(z3.If(c == 1, bv(a, ty.n), bv(b, ty.n)))
             else: regs[dst] = a if c else b
             return
         if o == 'phi':
@@ -482,12 +521,14 @@ class Machine:
             while p.peek() in ('fastcc', 'ccc'): p.next()
             p.attrs(); rt = p.type()
             if isinstance(rt, FnT): rt = rt.ret
-            callee = p.next(); p.expect('('); args = []
+            callee = p.next(); p.expect('('); args = []; ats = []
             if not p.accept(')'):
                 while True:
-                    at, av = p.tv(); args.append(s.op(regs, m, at, av))
+                    at, av = p.tv(); args.append(s.op(regs, m, at, av)); ats.append(at)
                     if p.accept(')'): break
                     p.expect(',')
+            s._vt = None
+            if callee in s.funcs and s.funcs[callee].va: s._vt = ats[len(s.funcs[callee].params):]
             if callee.startswith('%'):
                 fp = regs[callee]; assert str(fp.r).startswith('fn:'), fp; callee = fp.r[3:]
             r = s.call(callee, args)
